@@ -9,6 +9,7 @@
 package main
 
 import (
+	"bytes"
 	"fmt"
 	"os"
 	"path/filepath"
@@ -597,6 +598,102 @@ func c12Fixup(c *Ctx, idx int, r *Rng) {
 	_ = oldH
 }
 
+// c12FixupAttrs: `migrate import --fixup` decides per path from the repository's own attributes. Here the
+// attribute files are fixed from the first commit on (so the entry cache of D12 has nothing to confuse)
+// and several lines — later lines of the same file, nested .gitattributes files — speak about the same
+// path with different `filter` values: Git's rule is that the LAST matching line wins. The judge is
+// `git check-attr filter` in the final working tree.
+func c12FixupAttrs(c *Ctx, idx int, r *Rng) {
+	base := filepath.Join(c.Work, fmt.Sprintf("c12g-%d", idx))
+	defer os.RemoveAll(base)
+	os.MkdirAll(base, 0o755)
+	w, err := newScenRepo(c, filepath.Join(base, "w"), nil)
+	if err != nil {
+		return
+	}
+	for _, k := range []string{"filter.lfs.clean", "filter.lfs.smudge", "filter.lfs.process", "filter.lfs.required"} {
+		w.git("config", "--local", "--unset", k)
+	}
+	lfsLine := "*.bin filter=lfs diff=lfs merge=lfs -text\n"
+	rootExtra := []string{"raw/*.bin !filter\n", "raw/*.bin -filter\n", "raw/x.bin filter=lfs diff=lfs merge=lfs -text\n", "sub/*.bin filter=other\n", "*.txt text\n", "a.bin -filter\n"}
+	var root string
+	if r.Chance(30) {
+		// the overriding line first: then the general line wins again
+		root = Pick(r, rootExtra) + lfsLine
+	} else {
+		root = lfsLine
+	}
+	for k := 0; k < r.Intn(3); k++ {
+		root += Pick(r, rootExtra)
+	}
+	w.write(".gitattributes", []byte(root))
+	nested := Pick(r, []string{"", "", "keep.bin -filter\n", "keep.bin !filter\n", "*.bin filter=lfs diff=lfs merge=lfs -text\n", "b.bin -filter\nb.bin filter=lfs diff=lfs merge=lfs -text\n"})
+	if nested != "" {
+		w.write("sub/.gitattributes", []byte(nested))
+	}
+	files := []string{"a.bin", "raw/x.bin", "raw/y.bin", "sub/keep.bin", "sub/b.bin", "c.txt"}
+	want := map[string][][]byte{} // per commit index, per path content
+	ncommits := 2 + r.Intn(2)
+	var contents []map[string][]byte
+	cur := map[string][]byte{}
+	for k := 0; k < ncommits; k++ {
+		must := Pick(r, files)
+		for _, f := range files {
+			if k == 0 || f == must || r.Chance(40) {
+				b := r.Bytes(Pick(r, []int{30, 1500}))
+				w.write(f, b)
+				cur[f] = b
+			}
+		}
+		snap := map[string][]byte{}
+		for f, b := range cur {
+			snap[f] = b
+		}
+		contents = append(contents, snap)
+		w.git("add", "-A")
+		w.git("commit", "-qm", fmt.Sprintf("c%d", k))
+	}
+	_ = want
+	eff := checkAttr(w.dir, files)
+	_, oldOrder := c12ReadHistory(w)
+	out, code := w.runLfs("migrate", "import", "--fixup", "--everything", "--yes")
+	enc := fmt.Sprintf("C12 fixup-attrs seed=%d idx=%d root=%q nested=%q", c.Seed, idx, root, nested)
+	c.R.Eval(enc, true)
+	c.R.Count("import.fixup-attrs")
+	if code != 0 {
+		c.R.Add(Finding{Kind: "oracle", What: "`git lfs migrate import --fixup` failed", Case: enc, Impl: clip(out, 300)})
+		return
+	}
+	newH, newOrder := c12ReadHistory(w)
+	if len(newOrder) != len(oldOrder) || len(newOrder) != len(contents) {
+		c.R.Add(Finding{Kind: "oracle", What: "migrate import --fixup changed the number of commits", Case: enc})
+		return
+	}
+	cache := map[string][]byte{}
+	for i, nid := range newOrder {
+		for _, e := range newH[nid].tree {
+			orig, ok := contents[i][e.path]
+			if !ok {
+				continue
+			}
+			b, isPtr, have := c12Resolve(w, cache, e.blob)
+			wantPtr := eff[e.path] == "lfs"
+			if wantPtr {
+				c.R.Count("import.fixup-attrs.selected")
+			} else if strings.HasSuffix(e.path, ".bin") {
+				c.R.Count("import.fixup-attrs.overridden")
+			}
+			if isPtr != wantPtr {
+				c.R.Add(Finding{Kind: "oracle", What: "migrate import --fixup: a path changed representation against Git's effective `filter` attribute (last matching line wins)", Case: enc,
+					Impl: fmt.Sprintf("commit %d: %s is pointer=%v, git check-attr filter says %q", i+1, e.path, isPtr, eff[e.path])})
+			}
+			if !have || !bytes.Equal(b, orig) {
+				c.R.Add(Finding{Kind: "oracle", What: "migrate import --fixup changed the content of a file", Case: enc, Impl: fmt.Sprintf("commit %d: %s", i+1, e.path)})
+			}
+		}
+	}
+}
+
 func c12(c *Ctx) {
 	r := NewRng(c.Seed ^ 0xC12)
 	c.R.Rule = "cases = histories of 2-12 commits (edits, mode-only changes, renames, removals, real merges, lightweight and annotated tags, symlinks, executables, empty files, nested .gitattributes, a file already tracked by LFS, varying authors/dates/messages) x selections (--include/--exclude patterns, --above, --everything, --no-rewrite); old and new histories compared through plumbing (graph shape, headers, per-path mode, content after resolving pointers, representation changed exactly on selected convertible paths, refs and annotated tags at the images), export after import compared blob for blob, the rewritten trees compared with the model; non-trivial = every scenario; distinct = different (seed, index)"
@@ -617,6 +714,10 @@ func c12(c *Ctx) {
 					c.R.Add(Finding{Kind: "diff", What: fmt.Sprintf("scenario harness problem: %v", x), Broken: "corr.C12.scenario"})
 				}
 			}()
+			if i%5 == 3 {
+				c12FixupAttrs(c, i, rs)
+				return
+			}
 			if i%15 == 14 {
 				c12Fixup(c, i, rs)
 				return
